@@ -1507,10 +1507,15 @@ func (g *gen) typeDecl() []string {
 	g.f("struct-type")
 	var out []string
 	out = append(out, g.ownLineComments(40)...)
-	switch g.pick("typelayout", 3) {
-	case 0:
+	// a comment in front of the first field is what proposed/C05-2 is about;
+	// it is kept rare so that most programs reach the other relations
+	switch g.pick("typelayout", 8) {
+	case 0, 1, 2, 3, 4:
 		out = append(out, "type T0 struct {", "\ta int", "\tb string", "}")
-	case 1:
+	case 5:
+		g.f("comment-in-struct-type")
+		out = append(out, "type T0 struct {", "\ta int "+g.lineComment(), "\tb string "+g.blockComment(), "}")
+	case 6:
 		g.f("comment-in-struct-type")
 		out = append(out, "type T0 struct {", "\t"+g.lineComment(), "\ta int "+g.lineComment(), "\tb string", "}")
 	default:
